@@ -496,7 +496,6 @@ Proof.
   all: try solve [intuition congruence].
   - apply IP5; reflexivity.
   - rewrite Hr, writes_app, app_length. specialize (Hd eq_refl eq_refl). simpl. lia.
-  - rewrite Hr. simpl. apply in_elt.
 Qed.
 
 Lemma invO2_reach : forall cf s, reachable cf s -> invO2 cf s.
@@ -640,6 +639,8 @@ Definition invR (cf : cfg) (s : state) : Prop :=
   exists pre, rafter cf = pre ++ remaining (r s) /\
     match c s with
     | CSelect => writes pre = []
+    | COut None => fin s = true /\ writes pre = []
+    | COut (Some k) => writes pre = [k]
     | CDefer o => (o = ONoOutput /\ fin s = true /\ writes pre = []) \/
                   (exists k, o = ORet k /\ writes pre = [k])
     | CDone o => (o = ONoOutput /\ writes (rafter cf) = []) \/
@@ -676,16 +677,19 @@ Proof.
                     simpl in E; destruct (I1 E); discriminate end].
   all: try solve [exfalso; destruct (I1 eq_refl); discriminate].
   - exfalso. apply (NP p). rewrite Hr. apply in_elt.
-  - exists pre. split; [assumption|]. destruct c; auto. intuition.
+  - exists pre. split; [assumption|].
+    repeat match goal with |- context[match ?x with _ => _ end] => destruct x end; intuition.
+  - exists pre. split; [assumption|]. right. eauto.
+  - exists pre. split; [assumption|]. left. intuition.
   - destruct (I1 eq_refl) as [X|X]; [discriminate|]. subst r. simpl in Hr.
     exists pre. split; [assumption|]. rewrite app_nil_r in Hr. rewrite Hr.
     destruct Hc as [(? & ? & ?)|?]; auto.
   - exists (pre ++ [RWrite k]). split; [rewrite Hr, <- app_assoc; reflexivity|].
     right; right. split; auto. rewrite Hr, writes_app, app_length.
     destruct Hc as [(? & ? & ?)|(k0 & ? & Hw)]; [discriminate|]. rewrite Hw. simpl. lia.
-  - exists pre. split; [assumption|]. left. auto.
+  - exists pre. split; [assumption|]. split; auto.
   - exists (pre ++ [RWrite k]). split; [rewrite Hr, <- app_assoc; reflexivity|].
-    right. exists k. split; auto. rewrite writes_app, Hc. reflexivity.
+    rewrite writes_app, Hc. reflexivity.
 Qed.
 
 Lemma invR_clean : forall cf, no_rpanic (rafter cf) ->
